@@ -206,14 +206,22 @@ func execW1(t *testing.T, seed uint64, c *w1Case, cfg config.Config, script []mo
 			simrt.WaitIdle()
 			raw, ns := col.take()
 			ms := decode(raw, i)
-			if ex.vio != nil {
+			if ex.vio != nil && (prop == "C05" || c.monitor) {
 				break
 			}
 			if c.monitor {
 				continue
 			}
+			// a malformed message is a C05 observation; the model still judges the step for its own property
+			malformed := ex.vio
 			if v := m.Step(ev, ms, ns); v != nil {
+				if malformed != nil {
+					v.Props = append(v.Props, "C05")
+				}
 				fail(i, v)
+				break
+			}
+			if malformed != nil {
 				break
 			}
 			if c.state {
